@@ -21,6 +21,19 @@ CLAIMS = {
                   "discharged by z3/cvc5; bounded run-time contract evaluation as labelled stand-in",
         note=TRUST + "; weight conservation follows from the per-fill postcondition over mathematical reals (float rounding of "
              "+= not modelled); the pairwise-increasing form of the edges invariant is used (adjacent => pairwise by induction, lemma)"),
+    "C20": dict(
+        category="proof",
+        text="Every name-resolution obligation of lena/ is enumerated completely on each run and discharged by a static scope "
+             "resolver (symtable + ast): every __all__ entry is bound, every global name loaded by any function/method/class/"
+             "module body is bound at module scope or a builtin, every lena.<pkg>.<name> chain resolves inside the static import "
+             "closure of the using module's own subpackage. The resolver's import model is cross-validated against sys.modules in "
+             "fresh interpreters, and a vocabulary of public elements is run with only its subpackage imported (bounded stand-in). "
+             "Eight genuine defects found this way were repaired by fix: commits (known_findings.json).",
+        design_ref="DESIGN.md 5 (C20)",
+        technique="static obligations per name use, discharged by a scope resolver (finite, complete enumeration); fresh-interpreter "
+                  "runs as labelled bounded cross-check",
+        note="decided by a static resolver, not an SMT back end; trusted: CPython symtable/ast scoping, python-2 branches folded; "
+             "excluded: names injected via globals()[...] (flow/zip.py), attribute errors on instances, module-scope ordering"),
 }
 NA_REASON = "check not built yet (work in progress; see DESIGN.md section 8)"
 
